@@ -294,10 +294,13 @@ class ExpandedTraceback:
             end_offset = frame.end_colno+1 if frame.lineno == frame.end_lineno else len(frame.line)
             return formatter.python_code(frame.line, focus=Location(0, frame.colno + 1, 0, end_offset))
         elif IS_AT_LEAST_PYTHON_311:
-            end_offset = frame.end_colno+1 if frame.lineno == frame.end_lineno else len(frame._line)
             # Note: Need to use _line because in 3.10 and above, the line gets stripped.
             # https://github.com/python/cpython/commit/5644c7b3ffd49bed58dc095be6e6148e0bb4431e
             line = frame._line if frame._line is not None else ''
+            if frame.colno is None or frame.end_colno is None:
+                # No position is known (e.g., the source of the frame's file is not available)
+                return formatter.python_code(line)
+            end_offset = frame.end_colno+1 if frame.lineno == frame.end_lineno else len(line)
             return formatter.python_code(line, focus=Location(0, frame.colno+1, 0, end_offset))
         elif IS_AT_LEAST_PYTHON_310:
             return formatter.python_code(frame._line if frame._line is not None else '')
